@@ -69,6 +69,10 @@ class Prop:
     def exclude(self, spec, triggers):
         return spec, 0
 
+    def normalize(self, spec):
+        """Re-establish spec invariants (ids …) after the structural shrinker deleted something."""
+        return spec
+
     def setup(self):
         """Called once per process before any execute()."""
 
@@ -146,9 +150,54 @@ class HarnessError(Exception):
     pass
 
 
-def _ddmin_list(prop, spec, fails):
-    """Greedy structural minimisation for list-shaped specs (used when hypothesis shrinking is off)."""
-    return spec
+def _list_paths(node, path=()):
+    """Paths of all lists inside a JSON-like value."""
+    if isinstance(node, list):
+        yield path
+        for i, x in enumerate(node):
+            yield from _list_paths(x, path + (i,))
+    elif isinstance(node, dict):
+        for k in sorted(node):
+            yield from _list_paths(node[k], path + (k,))
+
+
+def _get(node, path):
+    for k in path:
+        node = node[k]
+    return node
+
+
+def structural_shrink(prop, spec, clause, cap_s=30):
+    """Greedy deletion of list elements anywhere in the spec while the same clause keeps failing."""
+    import copy
+    t0 = time.time()
+    best = spec
+    progress = True
+    while progress and time.time() - t0 < cap_s:
+        progress = False
+        paths = sorted(_list_paths(best), key=lambda p: -len(p))
+        for path in paths:
+            try:
+                lst = _get(best, path)
+            except (KeyError, IndexError, TypeError):
+                continue
+            i = len(lst) - 1
+            while i >= 0 and time.time() - t0 < cap_s:
+                cand = copy.deepcopy(best)
+                try:
+                    del _get(cand, path)[i]
+                    cand = prop.normalize(cand)
+                    res = prop.execute(cand)
+                except Exception:
+                    res = None
+                if res is not None and not res.ok and res.clause == clause:
+                    best = cand
+                    progress = True
+                    lst = _get(best, path)
+                    i = min(i, len(lst)) - 1
+                else:
+                    i -= 1
+    return best
 
 
 def _run_shard(args):
@@ -177,10 +226,16 @@ def _run_shard(args):
         verbosity=hypothesis.Verbosity.quiet,
     )
 
+    shrink_cap = 8 if tier == 'quick' else 120
+
     @hypothesis.seed(seed * 1000 + shard)
     @settings(st)
     @given(prop.strategy(tier))
     def test(spec):
+        # Shrinking is bounded by wall clock (this affects only how small the replay gets, never the verdict):
+        # once the cap is over every input "fails" without being executed, which makes the shrinker converge at once.
+        if 'failing' in holder and time.time() - holder['t0'] > shrink_cap:
+            raise AssertionError('shrink-cap')
         if triggers:
             spec, n = prop.exclude(spec, triggers)
             acc.excluded += n
@@ -188,7 +243,13 @@ def _run_shard(args):
         if 'failing' not in holder:
             acc.record(spec, res, prop.max_samples)
         if not res.ok:
-            holder['failing'] = (spec, res.clause, res.msg)
+            size = len(json.dumps(spec, default=repr))
+            if 'failing' not in holder:
+                holder['t0'] = time.time()
+                holder['clause'] = res.clause
+            if 'failing' not in holder or (size <= holder['size'] and res.clause == holder['clause']):
+                holder['failing'] = (spec, res.clause, res.msg)
+                holder['size'] = size
             raise AssertionError(res.clause)
 
     t0 = time.time()
@@ -198,6 +259,14 @@ def _run_shard(args):
         return ('harness', str(e), None)
     except AssertionError:
         acc.failure = holder.get('failing')
+        if acc.failure is not None:
+            try:
+                sp = structural_shrink(prop, acc.failure[0], acc.failure[1], 20 if tier == 'quick' else 60)
+                r2 = prop.execute(sp)
+                if not r2.ok:
+                    acc.failure = (sp, r2.clause, r2.msg)
+            except Exception:
+                pass
     except hypothesis.errors.Flaky as e:
         # Non-deterministic failure: report what was seen, flagged
         f = holder.get('failing')
@@ -345,10 +414,11 @@ def main(modname, argv):
                 triggers.append(f['trigger'])
 
     ctx = multiprocessing.get_context('fork')
+    replay_failed = bool(violations)  # a committed regression input fails: report at once, skip the search
 
     # ---- enumerated finite sub-domain
     exhaustive = None
-    specs = list(prop.enumerate(tier))
+    specs = [] if replay_failed else list(prop.enumerate(tier))
     if specs:
         if triggers:
             specs2 = []
@@ -376,7 +446,7 @@ def main(modname, argv):
         n_examples = a.examples
     if a.shards:
         shards = a.shards
-    if n_examples > 0:
+    if n_examples > 0 and not replay_failed:
         jobs = [(modname, tier, seed, sh, n_examples, tuple(triggers)) for sh in range(shards)]
         if shards == 1:
             outs = [_run_shard(jobs[0])]
